@@ -313,6 +313,40 @@ let () =
                     out (Printf.sprintf "S name=%s doc=%s vars=%s dump=%s" (tohex sh.sh_name) (tohex sh.sh_doc)
                            (if names = [] then "-" else String.concat "," names)
                            (dump_dag a2 (int_of_nat sh.sh_tree) vi))) loaded
+            | "deriv", t :: xs :: ys :: zs :: vs ->
+                (* value + gradient through the model's derivative kernels (binary32), the variable
+                   partials, and central differences of the reference denotation in doubles *)
+                let vals = Array.of_list (List.map of_hex32 vs) in
+                let varval i = let k = var_index i in if k >= 0 && k < Array.length vals then vals.(k) else 0.0 in
+                let x = of_hex32 xs and y = of_hex32 ys and z = of_hex32 zs in
+                let (a1, r) = optimized f32 !a (nat_of_int (h t)) in
+                let d = mk_deck a1 r in
+                let (v, ((gx, gy), gz)) = deriv_at f32 no_oracle d (fun i -> varval (int_of_nat i)) x y z in
+                let vp = List.sort compare (List.map (fun (slot, vid) ->
+                    (var_index (int_of_nat vid), var_partial f32 no_oracle d (fun i -> varval (int_of_nat i)) x y z slot)) d.d_vars) in
+                (* reference: central differences in doubles on the un-optimised flattened tree *)
+                let (a2, r2) = flatten f64 !a (nat_of_int (h t)) in
+                let d2 = mk_deck a2 r2 in
+                let f vv x y z = tape_value f64 no_oracle d2 d2.d_tape d2.d_root (fun i -> vv (int_of_nat i)) x y z in
+                (* a point where some sub-expression is NaN or infinite is outside the property's domain *)
+                let all_slots = eval_tape f64 no_oracle d2 d2.d_tape
+                    (set_point d2 (init_slots f64 d2 (fun i -> varval (int_of_nat i))) x y z) in
+                let defined = List.for_all (fun v -> Float.is_finite v) all_slots in
+                let hh = 1e-4 in
+                let cd g = (g hh -. g (-. hh)) /. (2.0 *. hh) in
+                let cd2 g = (g (2.0 *. hh) -. g (-. 2.0 *. hh)) /. (4.0 *. hh) in
+                let dx = cd (fun e -> f varval (x +. e) y z) and dy = cd (fun e -> f varval x (y +. e) z)
+                and dz = cd (fun e -> f varval x y (z +. e)) in
+                let dx2 = cd2 (fun e -> f varval (x +. e) y z) and dy2 = cd2 (fun e -> f varval x (y +. e) z)
+                and dz2 = cd2 (fun e -> f varval x y (z +. e)) in
+                let smooth = Float.abs (dx -. dx2) +. Float.abs (dy -. dy2) +. Float.abs (dz -. dz2) in
+                let vcd = List.map (fun (k, _) ->
+                    cd (fun e -> f (fun i -> if var_index i = k then varval i +. e else varval i) x y z)) vp in
+                let smooth = if defined then smooth else infinity in
+                out (Printf.sprintf "DV %s %s %s %s cd %s %s %s %s vars %s vcd %s" (hex32 v) (hex32 gx) (hex32 gy) (hex32 gz)
+                       (hex64 dx) (hex64 dy) (hex64 dz) (hex64 smooth)
+                       (String.concat "," (List.map (fun (k, g) -> Printf.sprintf "%d:%s" k (hex32 g)) vp))
+                       (String.concat "," (List.map hex64 vcd)))
             (* --- second-stage commands: start from the implementation's artefact --- *)
             | "deckof", dag ->
                 let (a1, r, vars) = load_dag f32 dag in
